@@ -15,9 +15,10 @@ def run_one(key):
     sigs = sorted(set(s.strip() for s in re.findall(r"VIOLATION property=%s .*?signature=(.*)$" % prop, out, re.M)))
     summ = re.search(r"SUMMARY.*$", out, re.M)
     applies = "PATCH DOES NOT APPLY" not in out
-    meta["check"] = {"cmd": "./check %s quick" % prop, "fired": bool(sigs), "signatures": sigs[:6], "summary": summ.group(0) if summ else out[-300:], "patch_applied": applies}
+    broken = "CHECK-BROKEN" in out
+    meta["check"] = {"cmd": "./check %s quick" % prop, "fired": bool(sigs), "signatures": sigs[:6], "summary": summ.group(0) if summ else out[-300:], "patch_applied": applies, "check_broken": broken}
     json.dump(meta, open(os.path.join(d, "meta.json"), "w"), indent=1)
-    print(key, "FIRED" if sigs else ("NO-APPLY" if not applies else "SILENT"), sigs[:2], flush=True)
+    print(key, "FIRED" if sigs else ("NO-APPLY" if not applies else ("CHECK-BROKEN" if broken else "SILENT")), sigs[:2], flush=True)
     return key
 
 def write_md():
@@ -33,7 +34,7 @@ def write_md():
         nf = 0
         for m in rows:
             ck = m.get("check", {})
-            st = "fires" if ck.get("fired") else ("not run" if not ck else "SILENT")
+            st = "fires" if ck.get("fired") else ("not run" if (not ck or ck.get("check_broken") or not ck.get("patch_applied", True)) else "SILENT")
             nf += 1 if ck.get("fired") else 0
             fh.write("| %s | %s | %s | %s | %s |\n" % (m["id"], m["change"].replace("|", "\\|"), m["needs_to_manifest"].replace("|", "\\|"), st, ", ".join("`%s`" % s[:90].replace("|", "\\|") for s in ck.get("signatures", [])[:3])))
         fh.write("\n%d of %d seeded changes are caught by the quick tier of the property they were written for.\n" % (nf, len(rows)))
